@@ -86,4 +86,52 @@ theorem feed_lit (st : LzwSt) (code : Nat) :
 
 theorem lzwdecode_lit (data : Bytes) : lzwdecode data = lzwRunB (8 * data.length + 1) lzwInit data 0 8 := rfl
 
+/-! ### Predictors: the model with the constants of utils.py / pdftypes.py written out -/
+
+theorem apply_png_predictor_lit (colors columns bpc : Nat) (data : Bytes) :
+    apply_png_predictor colors columns bpc data =
+      (if bpc != 8 && bpc != 1 then .error .pdfValue
+       else pngRows (pngNbytes colors columns bpc) (pngBpp colors bpc) data.length
+              (List.replicate (pngNbytes colors columns bpc) 0) data) := by
+  unfold apply_png_predictor
+  by_cases h8 : bpc = 8 <;> by_cases h1 : bpc = 1 <;> simp [PNG_BPC, h8, h1]
+
+theorem apply_tiff_predictor_lit (colors columns bpc : Nat) (data : Bytes) :
+    apply_tiff_predictor colors columns bpc data =
+      (if bpc != 8 then .error .pdfValue
+       else if columns * colors == 0 then .error .valueError
+       else tiffRows (columns * colors) colors data.length data) := by
+  unfold apply_tiff_predictor
+  by_cases h : bpc = 8
+  · subst h; simp [TIFF_BPC, tiffNbytes, tiffBpp]
+  · simp [TIFF_BPC, h]
+
+theorem applyPredictor_lit (pr : Option Parms) (data : Bytes) :
+    applyPredictor pr data =
+      (match pr with
+       | none => .ok data
+       | some p =>
+         match p.predictor with
+         | none => .ok data
+         | some pred =>
+           if pred == 1 then .ok data
+           else if pred == 2 then apply_tiff_predictor (p.colors.getD 1) (p.columns.getD 1) (p.bpc.getD 8) data
+           else if pred ≥ 10 then apply_png_predictor (p.colors.getD 1) (p.columns.getD 1) (p.bpc.getD 8) data
+           else .error .pdfNotImplemented) := by
+  unfold applyPredictor
+  cases pr with
+  | none => rfl
+  | some p =>
+    cases hp : p.predictor with
+    | none => simp only [hp]
+    | some pred =>
+      simp only [hp, predKind, PRED_TIFF_DEFAULTS, PRED_PNG_DEFAULTS]
+      by_cases h1 : pred = 1
+      · simp [h1]
+      · by_cases h2 : pred = 2
+        · simp [h2]
+        · by_cases h3 : pred ≥ 10
+          · simp [h1, h2, h3]
+          · simp [h1, h2, h3]
+
 end PdfVerif.Filters
